@@ -587,7 +587,8 @@ fn c11(src: &str) -> R {
                 }
             }
         }
-        if k.ch == TokenChannel::DEFAULT {
+        // (accepted reading, DESIGN §9: a stray catch-all character counts as the start of a statement)
+        if k.ch == TokenChannel::DEFAULT || k.ty == T::CatchAll {
             last_default = Some(k);
         }
     }
